@@ -8,22 +8,25 @@ CpusQuick == { CpuDec(10 * k) : k \in 1..1000 } \cup { CpuM(m) : m \in {10, 100,
 QuickSlices == <<
   \* A: one service, every body kind x every expose kind, one or two placements
   Sl(<<"web">>, <<"large">>, <<"east", "west">>, [s \in {"web"} |-> AllBodies], [s \in {"web"} |-> AllKinds],
-     {1, 50}, [c \in {"large"} |-> {QLarge}]),
+     {1, 50}, [c \in {"large"} |-> "QLarge"]),
   \* B: two services on one placement, two profiles
   Sl(<<"api", "web">>, <<"large", "small">>, <<"east">>,
      [s \in {"api", "web"} |-> IF s = "web" THEN AllBodies ELSE NoneAll],
      [s \in {"api", "web"} |-> IF s = "web" THEN {"none", "http", "two", "fan"} ELSE {"none", "httphosts", "local", "udp"}],
-     {2}, [c \in {"large", "small"} |-> IF c = "large" THEN {QLarge} ELSE {QSmall}]),
+     {2}, [c \in {"large", "small"} |-> IF c = "large" THEN "QLarge" ELSE "QSmall"]),
   \* C: two services, two profiles, two placements, every deployment mapping
   Sl(<<"api", "web">>, <<"large", "small">>, <<"east", "west">>,
      [s \in {"api", "web"} |-> IF s = "web" THEN NoneAll ELSE {{"command", "args", "env"}}],
      [s \in {"api", "web"} |-> IF s = "web" THEN {"http", "two"} ELSE {"local", "udp"}],
-     {1}, [c \in {"large", "small"} |-> IF c = "large" THEN {QLarge} ELSE {QOdd}]),
+     {1}, [c \in {"large", "small"} |-> IF c = "large" THEN "QLarge" ELSE "QOdd"]),
   \* D: unit forms
-  UnitsSlice(CpusQuick,
-             UNION {MemForms, DecForms("G", 0..17), DecForms("M", {1, 4, 8, 16, 100})},
-             UNION {StorageForms, DecForms("G", 0..20), DecForms("M", 4..8)}) >>
+  UnitsSlice >>
 
+
+\* the unit universe of this tier (built on use: see Sdl!QuantsOf)
+TierQuants(tag) == IF tag = "units" THEN QuantsVarying(CpusQuick,
+             UNION {MemForms, DecForms("G", 0..17), DecForms("M", {1, 4, 8, 16, 100})},
+             UNION {StorageForms, DecForms("G", 0..20), DecForms("M", 4..8)}) ELSE BaseQuants(tag)
 
 ASSUME ExportDocs(Slices)
 =============================================================================
